@@ -90,6 +90,7 @@ PROPS = {
             dict(key=ADV + '::general_get_lagrange_vals', gen='lagr_general', n=(200, 3000)),
             dict(key=ADV + '::get_lagrange_vals', gen='lagr_dispatch', n=(200, 3000)),
         ],
+        case_functions=[dict(module='vf.contracts.classes_c10', key='pygyro/advection/advection.py::FluxSurfaceAdvection.step')],
         bounded=[dict(module='vf.rt.bounded_adv', prop='C10',
                       bound='FluxSurfaceAdvection.step / _getLagrangePts / gridStep against the defining formula (degree-5 Lagrange weights, stencil centred on the foot, theta-spline values) for every (rIdx, cIdx), displacements from 1e-15 cells to 2.5 turns, both signs, iota in {0, 0.8, -1.3, 2}, grids 6-20 points, general and uniform-cubic splines, process grids up to 3x2; corollaries (constants, linearity, z-shift commutation, exact circular shift); rtol 1e-9')],
         assumptions=['S1 names the value returned by the spline evaluator passed in (see C07)',
